@@ -158,6 +158,9 @@ def unit_apply_preprocessing(prop, tier=None, seed=None):
             st["columns"] = (kwargs.get("identifiers"), kwargs.get("options"))
             return sx.SDict([("d", 1)]) if kwargs.get("ret_details") else None
         I.contracts["nanite.preproc:apply"] = apply_contract
+        # AFMData.reset_data restores the recorded raw data (assumed contract of afmformats)
+        idnt.cls.bases[0].ns["reset_data"] = sx.Builtin("AFMData.reset_data",
+                                                        lambda I, self: st.__setitem__("columns", "raw"))
         snap = F.snapshot(fp)
         st.update(fp=fp, vals=vals, pres=pres, fpd=fpd, res=res, idnt=idnt, tied=tied, snap=snap, calls=calls,
                   variant=variant, eff_steps=eff_steps, eff_opts=eff_opts, a_steps=a_steps, a_opts=a_opts,
@@ -225,7 +228,10 @@ def unit_apply_preprocessing(prop, tier=None, seed=None):
                 S.ensure("changed_pipeline_drops_rating", idnt.attrs["_rating"] is None, case=case)
             if prop == "C09" and calls:
                 S.ensure("rating_reset_on_preprocessing_change", idnt.attrs["_rating"] is None, case=case)
-            if prop == "C10":
+            if prop in ("C10", "C06", "C03"):
+                # (C06/C03: the request a later call is compared with must be the curve's own copy; otherwise an
+                #  in-place edit of the caller's options makes the next, different, request look "unchanged" and the
+                #  columns no longer depend on the options only)
                 for label, stored in (("fit_properties.preprocessing", stored_steps and stored_steps[1]),
                                       ("fit_properties.preprocessing_options", stored_opts and stored_opts[1]),
                                       ("attribute.preprocessing", idnt.attrs["preprocessing"]),
@@ -246,6 +252,13 @@ def unit_apply_preprocessing(prop, tier=None, seed=None):
                 # ... and nothing else may be claimed for the half-processed columns either
                 S.ensure("no_pipeline_claimed_after_rejection",
                          z3.Not(F.presence_term(fp, "preprocessing")), case=case, witness="fit_properties")
+            if prop in ("C06", "C03"):
+                # representation invariant of a curve: "no pipeline stored" means "the columns are the recorded raw
+                # data" (a later fit_model() fills in preprocessing=[] for the results it shows) -- a rejected
+                # request must not leave the half-processed columns behind
+                S.ensure("rejected_request_leaves_the_raw_data", st["columns"] in ("raw", "as before")
+                         and (st["columns"] == "raw" or not calls),
+                         case=dict(case, columns=str(st["columns"])), witness="columns")
             if prop == "C03":
                 for r in st["res"]:
                     S.ensure("rejected_request_leaves_no_results", z3.Not(F.presence_term(fp, r)), witness=r)
@@ -543,6 +556,12 @@ def unit_rate_quality(prop, tier=None, seed=None):
                          (z3.IntVal(V.str_code(nr[0])) if isinstance(nr[0], str) else nr[0].term) == curhash)
                 if prop == "C10" and st["names"] is not None:
                     S.ensure("owns.rating_names", nr[3] is not st["names"], case=case, witness="names")
+                if st["ts_kind"] == 1:
+                    # the cache key must not alias the caller's arrays: an in-place change of a previously passed
+                    # training set has to be noticed by the next call (C09: "only while ... training set ... unchanged")
+                    S.ensure("owns.rating_training_set",
+                             isinstance(nr[2], (tuple, list)) and len(nr[2]) == 2
+                             and all(a is not b for a, b in zip(nr[2], st["ts"])), case=case, witness="training_set")
         else:
             S.ensure("cached_value_only_while_key_unchanged__reused", key_same, case=case)
             S.ensure("returns_the_cached_value", cached is not None and rv is cached[5], case=case)
@@ -628,6 +647,32 @@ def replay(ob):
     import numpy as np
     oid = ob.oid
     P = ["compute_tip_position", "correct_force_offset", "correct_tip_offset"]
+    if "rejected_request_leaves_the_raw_data" in oid:
+        # a request rejected part-way, then look at the columns / fit without asking for a pipeline
+        for bad in (["compute_tip_position", "correct_force_offset", "no_such_step"],
+                    ["compute_tip_position", "correct_force_slope", "correct_tip_offset"]):
+            idnt, fresh = _curve(), _curve()
+            try:
+                idnt.apply_preprocessing(list(bad), {"correct_force_slope": {"strategy": "bogus"}})
+                continue
+            except BaseException:
+                pass
+            extra = sorted(set(idnt.columns) - set(fresh.columns))
+            changed = [c for c in fresh.columns if c in idnt.columns
+                       and not np.array_equal(np.array(idnt[c]), np.array(fresh[c]), equal_nan=True)]
+            if extra or changed:
+                shown = None
+                try:
+                    idnt.fit_model(model_key="hertz_para")
+                    shown = {"E": idnt.fit_properties["params_fitted"]["E"].value,
+                             "stored preprocessing": idnt.fit_properties.get("preprocessing")}
+                except BaseException as exc:
+                    shown = f"fit_model raised {type(exc).__name__}"
+                return {"confirmed": True, "input": {"rejected request": bad},
+                        "observed": {"columns left behind": extra, "columns changed": changed,
+                                     "a following fit_model() shows": shown},
+                        "required": "the recorded raw data (no pipeline is stored for the curve)"}
+        return {"confirmed": False}
     if "rejected_request_not_remembered" in oid or "no_pipeline_claimed_after_rejection" in oid \
             or "rejected_request_leaves" in oid:
         requests = [(["correct_tip_offset"], {}), (["compute_tip_position", "no_such_step"], {}),
@@ -727,6 +772,22 @@ def replay(ob):
         r3 = fresh.rate_quality(names=list(names))
         return {"confirmed": r2 != r3, "input": "names list appended in place and passed again",
                 "observed": {"returned": float(r2), "fresh": float(r3)}, "required": "equal"}
+    if "owns.rating_training_set" in oid:
+        import numpy as np
+        from nanite.rate import IndentationRater
+        idnt = _curve()
+        idnt.fit_model(preprocessing=P, model_key="hertz_para")
+        X, y = IndentationRater.load_training_set()
+        X, y = np.array(X), np.array(y, dtype=float)
+        r1 = idnt.rate_quality(training_set=(X, y))
+        y[:] = 10 - y
+        r2 = idnt.rate_quality(training_set=(X, y))
+        fresh = _curve()
+        fresh.fit_model(preprocessing=P, model_key="hertz_para")
+        r3 = fresh.rate_quality(training_set=(X.copy(), y.copy()))
+        return {"confirmed": abs(r2 - r3) > 1e-9, "input": "responses of an in-memory training set replaced in place "
+                "(y := 10 - y) and the same tuple passed again",
+                "observed": {"first": float(r1), "returned": float(r2), "fresh": float(r3)}, "required": "equal"}
     if "never_raises" in oid:
         idnt = _curve()
         idnt.fit_model(preprocessing=P, model_key="hertz_para")
